@@ -88,3 +88,9 @@ Definition all_done_new (s : lst) : bool :=
   Nat.eqb (kpc s) 3 && match mpc s with Some 2%nat => true | _ => false end && forallb (Nat.eqb 4) (wpc s).
 (** thread [w]'s step changes the state *)
 Definition pcs (s : lst) := (kpc s, mpc s, wpc s).
+
+(** The shape of the source this model transcribes (checked against the working
+    tree on every run by translator/lockshape): the Ctrl+O branch of the
+    control-character handler takes no lock synchronously, and the writers
+    (writePlain, Logf) lock Shell.wL before they touch the terminal. *)
+Definition lock_shape_of_model : list bytes * bool := ([], true).
